@@ -503,6 +503,29 @@ def mode_bag_vs_list(p):
     return {"reproduced": False, "cases": cases}
 
 
+def mode_dask_classes(p):
+    """fit from per-class delayed lists (what fit_using_array / bags produce) with 2, 3, 5 classes == list training (exact)"""
+    import dask
+    O.install()
+    cases = 0
+    for ncls in (2, 3, 5):
+        for kind in ("isv", "jfa"):
+            rs = np.random.RandomState(SEED * 100 + 67 + cases)
+            C, D, rU, rV = 2, 1, 1, 1
+            per = [int(rs.randint(1, 3)) for _ in range(ncls)]
+            X, y = labelled_stats(rs, C, D, ncls, per)
+            ref = train(kind, C, D, rU, rV, X, y, 7)
+            Xd = [dask.delayed(list)([s for s, l in zip(X, y) if l == k]) for k in range(ncls)]
+            yd = [np.array([l for l in y if l == k]) for k in range(ncls)]
+            got = train(kind, C, D, rU, rV, Xd, yd, 7)
+            cases += 1
+            for nm in ("_U", "_D") + (("_V",) if kind == "jfa" else ()):
+                if not O.same(getattr(got, nm), getattr(ref, nm)):
+                    return {"reproduced": True, "cases": cases, "machine": kind, "classes": ncls,
+                            "what": "%s trained from %d per-class delayed lists differs from list training in %s (a per-class contribution lost or counted twice)" % (kind.upper(), ncls, nm.strip("_"))}
+    return {"reproduced": False, "cases": cases}
+
+
 def mode_perm_relabel(p):
     O.install()
     cases = 0
